@@ -128,7 +128,7 @@ def run_tlc(module, cfg, env=None, workers=1, simulate=None, depth=None,
         cfg_path = os.path.join(scratch, module + ".cfg")
         with open(cfg_path, "w") as fh:
             fh.write(cfg)
-        jopts = ["-XX:+UseParallelGC", "-Xmx" + heap]
+        jopts = ["-XX:+UseParallelGC", "-Xmx" + heap, "-Xss256m"]
         if deque:
             jopts.append("-Dtlc2.tool.queue.IStateQueue=StateDeque")
         cmd = ["java"] + jopts + ["-cp", JAR + ":" + CM, "tlc2.TLC",
